@@ -10,14 +10,15 @@ use std::process::{Command, Stdio};
 use vh::alloc;
 use vh::hostile::*;
 use vh::report::*;
-use vh::session::SPkt;
+use vh::scenario::{emit, EmitOpts};
+use vh::session::{Fec, ObjSpec, OtiSpec, SPkt, SenderSpec, ALL_FEC};
 use vh::util::{self, hex, Rng};
 use vh::wire::{self, Fti};
 
 #[global_allocator]
 static GLOBAL: alloc::Counting = alloc::Counting;
 
-const CLASSES: [&str; 10] = ["tiny", "short", "subst", "field_fti", "field_fti_any", "field_misc", "fdtxml", "fdt_oti", "fdt_id_reuse", "sequence"];
+const CLASSES: [&str; 11] = ["tiny", "short", "subst", "field_fti", "field_fti_any", "field_misc", "fdtxml", "fdt_oti", "fdt_id_reuse", "budget", "sequence"];
 
 struct World {
     seed: u64,
@@ -39,6 +40,7 @@ fn class_size(w: &World, class: &str) -> u64 {
         "fdtxml" => w.corpus.len() as u64 * if w.thorough { 1200 } else { 40 },
         "fdt_oti" => if w.thorough { 120_000 } else { 2400 },
         "fdt_id_reuse" => if w.thorough { 6000 } else { 320 },
+        "budget" => if w.thorough { 120 } else { 30 },
         "sequence" => if w.thorough { 1_500_000 } else { 6000 },
         _ => 0,
     }
@@ -512,6 +514,47 @@ fn gen_seq(w: &World, class: &str, k: u64) -> Option<(Value, u64, Vec<Vec<u8>>)>
                 seq.extend(objs);
             }
             Some((json!({"class": "fdt_oti", "fec": fec, "attrs": attrs, "at_file_level": at_file, "L": l}), tsi, seq))
+        }
+        // "without allocating beyond the configured limits": well-formed packets of ONE large object of every scheme
+        // that stays undecodable / unwritable (no FDT, first block withheld, one symbol of every block withheld), with a
+        // small object_max_cache_size; the live heap may grow by the calibrated allowance of the C17 check, no more
+        "budget" => {
+            let fec = ALL_FEC[(k % 5) as usize];
+            let variant = (k / 5) % 3;
+            let big = (k / 15) % 2 == 1;
+            // inside each scheme's block-count limit (flute: 255 blocks for RS GF(2^8) and RaptorQ) and with an FDT the
+            // session OTI can carry (Raptor refuses blocks of 2-3 symbols)
+            let (e, b) = match fec {
+                Fec::Rs28 | Fec::RaptorQ => (1024u16, 16u32),
+                Fec::Raptor => (256, 16),
+                _ => (512, 8),
+            };
+            let mut oti = OtiSpec::new(fec, e, b, if fec == Fec::NoCode { 0 } else { 2 });
+            oti.inband_fti = true;
+            let mut spec = SenderSpec::new(oti);
+            spec.tsi = 70 + (k % 5);
+            let len = if big { 3_000_000 } else { 1_200_000 } + (k as usize % 7) * 333;
+            let obj = ObjSpec::new(rng.bytes(len), &format!("file:///budget/{}", k));
+            let em = emit(&spec, &[obj], &EmitOpts { max_packets: 20_000, ..Default::default() }).ok()?;
+            if em.tois[0].is_none() {
+                return None;
+            }
+            let block = e as usize * b as usize;
+            let cache = 64usize << 10;
+            let allowed = (cache / block + 3) * (2 * block + (16 << 10)) + (512 << 10);
+            let mut seq = vec![budget_marker(cache as u32, allowed as u32)];
+            for p in &em.stream {
+                let keep = match variant {
+                    0 => p.toi() != 0,                                         // FDT never arrives
+                    1 => p.toi() == 0 || p.dec.sbn != 0,                       // block 0 never arrives
+                    _ => p.toi() == 0 || (p.dec.esi != 0 && p.dec.esi < b),    // one source symbol and all repair of every block missing
+                };
+                if keep {
+                    seq.push(p.bytes.clone());
+                }
+            }
+            let vname = ["no_fdt", "block0_withheld", "symbol_of_every_block_withheld"][variant as usize];
+            Some((json!({"class": "budget", "fec": fec.name(), "variant": vname, "object_bytes": len, "cache": cache, "allowed_growth": allowed, "packets": seq.len()}), spec.tsi, seq))
         }
         // an FDT instance that fails to decode (complete but malformed), then cleanup() as applications call it, then a
         // valid session on the same TSI that reuses the instance id: "a rejected packet leaves the receiver usable"
